@@ -260,13 +260,15 @@ def lock_proto(repo, res):
             res.fail(k, "the polling loop does not sleep exactly once per iteration", m.line(lp))
             continue
 
-        def num(e, t):
+        def num(e, env):
             if isinstance(e, ast.Constant) and isinstance(e.value, (int, float)):
                 return e.value
-            if isinstance(e, ast.Name) and e.id == "timeout":
-                return t
+            if isinstance(e, ast.Name) and e.id in env:
+                return env[e.id]
+            if isinstance(e, ast.UnaryOp) and isinstance(e.op, ast.USub):
+                return -num(e.operand, env)
             if isinstance(e, ast.BinOp):
-                a, b = num(e.left, t), num(e.right, t)
+                a, b = num(e.left, env), num(e.right, env)
                 if isinstance(e.op, ast.Mult):
                     return a * b
                 if isinstance(e.op, ast.Div):
@@ -277,22 +279,51 @@ def lock_proto(repo, res):
                     return a + b
                 if isinstance(e.op, ast.Sub):
                     return a - b
-            if isinstance(e, ast.Call) and call_name(e) in ("int", "round", "math.ceil", "ceil") and e.args:
+                if isinstance(e.op, ast.Pow):
+                    return a ** b
+            if isinstance(e, ast.Call) and call_name(e) in ("int", "round", "math.ceil", "ceil", "float") and e.args:
                 import math
 
-                v = num(e.args[0], t)
-                return {"int": int, "round": round, "math.ceil": math.ceil, "ceil": math.ceil}[call_name(e)](v)
-            if isinstance(e, ast.Call) and call_name(e) == "max" and e.args:
-                return max(num(a, t) for a in e.args)
+                v = num(e.args[0], env)
+                return {"int": int, "round": round, "math.ceil": math.ceil, "ceil": math.ceil, "float": float}[call_name(e)](v)
+            if isinstance(e, ast.Call) and call_name(e) in ("max", "min") and e.args:
+                vals = [num(a, env) for a in e.args]
+                return max(vals) if call_name(e) == "max" else min(vals)
             raise AnalysisError(f"get_cached_module: cannot evaluate `{ast.unparse(e)}` in the wait loop")
 
         rargs = lp.iter.args
-        for t in (10, 30, 7):
-            n_it = num(rargs[0], t) if len(rargs) == 1 else (num(rargs[1], t) - num(rargs[0], t))
-            total = n_it * num(sleeps[0].args[0], t)
+        # numeric locals assigned before the loop (e.g. an initial back-off delay)
+        pre = {}
+        for st in ast.walk(gcm.node):
+            if isinstance(st, ast.Assign) and len(st.targets) == 1 and isinstance(st.targets[0], ast.Name) and st.lineno < lp.lineno \
+                    and isinstance(st.value, ast.Constant) and isinstance(st.value.value, (int, float)) and not isinstance(st.value.value, bool):
+                pre[st.targets[0].id] = st.value.value
+        for t in (10, 30, 7, 3):
+            env = dict(pre)
+            env["timeout"] = t
+            n_it = num(rargs[0], env) if len(rargs) == 1 else (num(rargs[1], env) - num(rargs[0], env))
+            total = 0.0
+            for it_ in range(int(n_it)):
+                if isinstance(lp.target, ast.Name):
+                    env[lp.target.id] = it_
+                for st in ast.walk(lp):
+                    if isinstance(st, ast.Expr) and st.value is sleeps[0] or (isinstance(st, ast.Expr) and any(x is sleeps[0] for x in ast.walk(st))):
+                        total += num(sleeps[0].args[0], env)
+                    elif isinstance(st, ast.Assign) and len(st.targets) == 1 and isinstance(st.targets[0], ast.Name) and st.targets[0].id in env \
+                            and st.targets[0].id != "timeout":
+                        try:
+                            env[st.targets[0].id] = num(st.value, env)
+                        except AnalysisError:
+                            pass
+                    elif isinstance(st, ast.AugAssign) and isinstance(st.target, ast.Name) and st.target.id in env:
+                        env[st.target.id] = num(ast.BinOp(left=ast.Name(id=st.target.id, ctx=ast.Load()), op=st.op, right=st.value), env)
             if total < t * 0.99:
-                res.fail(k, f"with timeout={t} the waiter polls {n_it} times and sleeps {ast.unparse(sleeps[0].args[0])} s each: it gives up after {total:g} s, "
-                         "before the requested timeout - a second request raises TimeoutError while the first is still compiling within its budget", m.line(sleeps[0]))
+                res.fail(k, f"with timeout={t} the waiter polls {n_it} times and sleeps {total:g} s in total: it gives up before the requested timeout - "
+                         "a second request raises TimeoutError while the first is still compiling within its budget", m.line(sleeps[0]), props=("C14",))
+                break
+            if total > t * 1.25 + 1:
+                res.fail(k, f"with timeout={t} the waiter sleeps {total:g} s in total before raising: a request that finds the stale lock of a killed builder "
+                         "does not raise within the timeout", m.line(sleeps[0]), props=("C15", "C14"))
                 break
     # when the marker never appears the function must end in an explicit raise
     k = f"{gcm.key}:timeout-raises"
